@@ -25,7 +25,7 @@ PROPS = {
              "combinations; (random) seeded histories of 30 operations. non-trivial = more than 3 operations",
         exhaustive={"quick": False, "thorough": False},
         partial="numeric operator<< overloads: the digits are an input of the model (rendering belongs to C12/C13); the check is that they are appended. "
-                "INT_MIN/LONG_MIN/LLONG_MIN are not generated (std::abs UB, defect #12, belongs to C12). size_t wrap-around of m_size + added_size "
+                "the most negative values of int/long/long long are generated (defect #12 is repaired). size_t wrap-around of m_size + added_size "
                 "(streams of 2^63 bytes) is outside the model.",
         assumptions=["self-move-assignment of a stream is outside the property and is not generated",
                      "wide text handed to operator<< has fewer than 2^28 units (the conversion's documented limit, C03)",
